@@ -19,7 +19,7 @@ func init() { register(c20{}) }
 // over every prefix of a history, bytes allocated <= c20K * (input bytes) + c20C * (calls).
 const (
 	c20K = 1024     // bytes allocated per input byte
-	c20C = 4 * 1024 // bytes per call
+	c20C = 64 * 1024 // bytes per call
 )
 
 func (c20) ID() string    { return "C20" }
@@ -32,7 +32,7 @@ func (c20) Budget(tier string) (int, int) {
 	return 12000, 90
 }
 func (c20) Rule() string {
-	return fmt.Sprintf("seeded histories on one ValueReader and one Buffer (plus fresh ones): validate / skip / traverse / generically decode documents of adversarial shape - one huge container (object or array) at any depth followed by n small siblings of either kind, escaped strings and keys at every nesting level and in every child, deep nesting (to 10,000), megabyte strings, wide scalar arrays, generated trees up to 400 KB - each shape at growing sizes (x1, x10, x100: a super-linear term crosses the bound at the smallest size that shows it), and 'one large document, then up to 20,000 small ones' (succeeding, failing, typed entry points on null) on the same reader. Failing calls (truncated, overflow, 10,001+ deep) sit between the others. A document may also be decoded the handler way (operation TraverseDecodeMembers: traverse the root container, decode every member with the long-lived reader and return its offset; the input is the document once, every library call counts as a call). Pool policy: hit whenever possible, eviction only between top-level calls. Measure: runtime.MemStats.TotalAlloc around each call at GOMAXPROCS=1. Oracles: (1) at every prefix of the history, allocated <= %d B x input bytes + %d B x calls; (2) for one shape at sizes x1/x10/x100, bytes allocated per input byte at one size must not exceed 2x the figure at the previous size + 32 (checked when the step allocates > 1 MiB): a super-linear term with a small coefficient shows as growth of the per-byte cost long before it crosses an absolute bound. Non-trivial: the history has >= 2 calls on the shared reader/buffer or a document >= 10 KB; distinct = distinct hashes of (operation, shape, size class, outcome) sequences.", c20K, c20C)
+	return fmt.Sprintf("seeded histories on one ValueReader and one Buffer (plus fresh ones): validate / skip / traverse / generically decode documents of adversarial shape - one huge container (object or array) at any depth followed by n small siblings of either kind, escaped strings and keys at every nesting level and in every child, deep nesting (to 10,000), megabyte strings, wide scalar arrays, generated trees up to 400 KB - each shape at growing sizes (x1, x10, x100: a super-linear term crosses the bound at the smallest size that shows it), and 'one large document, then up to 20,000 small ones' (succeeding, failing, typed entry points on null) on the same reader. Failing calls (truncated, overflow, 10,001+ deep) sit between the others. A document may also be decoded the handler way (operation TraverseDecodeMembers: traverse the root container, decode every member with the long-lived reader and return its offset; the input is the document once, every library call counts as a call). Pool policy: hit whenever possible, eviction only between top-level calls. Measure: runtime.MemStats.TotalAlloc around each call at GOMAXPROCS=1. Oracles: (1) at every prefix of the history, allocated <= %d B x input bytes + %d B x calls; (3) a run of small documents on the reader / Buffer that carries the history must not allocate more than 8x + 1 KiB per call of what the same run allocates on a fresh reader / Buffer; (2) for one shape at sizes x1/x10/x100, bytes allocated per input byte at one size must not exceed 2x the figure at the previous size + 32 (checked when the step allocates > 1 MiB): a super-linear term with a small coefficient shows as growth of the per-byte cost long before it crosses an absolute bound. Non-trivial: the history has >= 2 calls on the shared reader/buffer or a document >= 10 KB; distinct = distinct hashes of (operation, shape, size class, outcome) sequences.", c20K, c20C)
 }
 func (c20) Assumptions() []string {
 	return []string{
@@ -42,7 +42,7 @@ func (c20) Assumptions() []string {
 	}
 }
 func (c20) Required(tier string) []string {
-	return []string{"shape-big-then-small-siblings", "shape-escapes-every-level", "shape-deep", "shape-escaped-children", "shape-large-tree", "history-large-then-many-small", "history-failing-small-docs", "A-abort", "P-evict", "doc>=100KB", "reused-buffer", "reused-reader", "history-deep-then-tiny-on-one-buffer", "scaling-step-checked", "shape-deep-uncapped", "document-decoded-member-by-member-in-a-traversal", "shape-records", "every-string-member-read-into-a-fresh-destination"}
+	return []string{"shape-big-then-small-siblings", "shape-escapes-every-level", "shape-deep", "shape-escaped-children", "shape-large-tree", "history-large-then-many-small", "history-failing-small-docs", "A-abort", "P-evict", "doc>=100KB", "reused-buffer", "reused-reader", "history-deep-then-tiny-on-one-buffer", "scaling-step-checked", "shape-deep-uncapped", "document-decoded-member-by-member-in-a-traversal", "shape-records", "small-documents-after-history-vs-fresh-state-compared", "every-string-member-read-into-a-fresh-destination"}
 }
 
 func repeatStr(s string, n int) []byte { return bytes.Repeat([]byte(s), n) }
@@ -523,6 +523,47 @@ func (c20) Exec(sc *Scenario, st *Stats) *Violation {
 					}
 				}
 				prevRatio, prevLen = ratio, len(data)
+			}
+			// (3) differential: a run of small documents on the reader / Buffer that carries the history must
+			// not cost much more per call than the same run on a fresh reader / Buffer. This is the statement's
+			// "a reader that has once processed a large document does not make an unbounded number of later
+			// small documents expensive", without any absolute constant.
+			usesReader := len(op.Kind) > 3 && op.Kind[:3] == "VR."
+			usesBuffer := op.A == 1 && !isDecoder(op.Kind) && op.Kind != "ReadObject" && op.Kind != "ReadArray"
+			if n > 1 && (usesReader || usesBuffer) {
+				m := n
+				if m > 200 {
+					m = 200
+				}
+				savedReader, savedB := reader, b
+				reader = &rjson.ValueReader{}
+				if b != nil {
+					b = &rjson.Buffer{}
+				}
+				var f0, f1 runtime.MemStats
+				freshPanicked := false
+				runtime.ReadMemStats(&f0)
+				func() {
+					defer func() {
+						if recover() != nil {
+							freshPanicked = true
+						}
+					}()
+					for i := 0; i < m; i++ {
+						call()
+					}
+				}()
+				runtime.ReadMemStats(&f1)
+				reader, b = savedReader, savedB
+				if !freshPanicked {
+					st.probe("small-documents-after-history-vs-fresh-state-compared")
+					perCall := float64(delta) / float64(n)
+					perFresh := float64(f1.TotalAlloc-f0.TotalAlloc) / float64(m)
+					if perCall > 8*perFresh+1024 {
+						return &Violation{Class: "later-small-documents-expensive", Task: 0, Op: oi, Sig: "C20/later-small-documents-expensive/" + op.Kind + "/" + d.Class,
+							Detail: fmt.Sprintf("after call %d: %s x%d on a %d-byte document (class %s, ok=%v) with the reader / Buffer that processed the earlier documents allocates %.0f bytes per call; the same calls on a fresh reader / Buffer allocate %.0f bytes per call", oi, op.Kind, n, len(data), d.Class, ok, perCall, perFresh)}
+					}
+				}
 			}
 			if totalAlloc > bound {
 				return &Violation{Class: "superlinear-allocation", Task: 0, Op: oi, Sig: "C20/superlinear-allocation/" + op.Kind + "/" + d.Class,
